@@ -102,6 +102,8 @@ def _case_same(spec, rec, fdir):
     jv, jtw, lhs, rhs, scale = _adjoint_identity(sim, vv, w, obs, tag, 1e-6)
     if not simgen.all_converged(sim):
         raise Inconclusive("forward solve did not converge")
+    if not simgen.data_converged(p, sim):
+        raise Inconclusive("responses below the accuracy of the solver")
     nv = float(np.linalg.norm(jv[np.isfinite(jv)]))
     if scale == 0 or nv == 0:
         rec.cls('trivial_zero_sensitivity')
